@@ -9,7 +9,7 @@
 EXTENDS TexVM, Json, IOUtils
 
 Rec == ndJsonDeserialize(IOEnv.TRACE)
-Fuel == 4000
+Fuel == 1500
 
 VARIABLE l
 
